@@ -42,6 +42,23 @@ fn decoys(p: &Project, rng: &mut Rng) -> Vec<(String, Vec<u8>)> {
             d.push((format!("{dir}/notes.txt"), b"keep me\n".to_vec()));
         }
     }
+    // names that contain `txtpp` without being txtpp names (no stem / wrong position), next to the file that
+    // would be their "output" if they were taken for sources
+    if rng.chance(1, 2) {
+        let dir = if !p.dirs.is_empty() && rng.chance(1, 2) { format!("{}/", rng.pick(&p.dirs)) } else { String::new() };
+        match rng.below(4) {
+            0 => {
+                d.push((format!("{dir}txtpp.md"), b"TXTPP#run echo never\n".to_vec()));
+                d.push((format!("{dir}txtpp"), b"a file called txtpp\n".to_vec()));
+            }
+            1 => d.push((format!("{dir}.txtpp"), b"dotfile, not a source\n".to_vec())),
+            2 => d.push((format!("{dir}.txtpp.md"), b"TXTPP#run echo never\n".to_vec())),
+            _ => {
+                d.push((format!("{dir}notes.txtppx"), b"TXTPP#run echo never\n".to_vec()));
+                d.push((format!("{dir}atxtpp.md"), b"TXTPP#run echo never\n".to_vec()));
+            }
+        }
+    }
     d.retain(|(n, _)| !p.files.iter().any(|f| &f.0 == n) && !p.sources.iter().any(|s| &output_name(s) == n));
     d.sort();
     d.dedup_by(|a, b| a.0 == b.0);
@@ -98,6 +115,26 @@ fn tamper(data: &[u8], how: usize, rng: &mut Rng) -> Option<Vec<u8>> {
     }
 }
 
+/// on how many of the generated sources does the executable side condition (`srcSafeB`) of the pass-level
+/// theorems (C06 verify iff, C08 hermetic/idempotent, C09 needed = build) hold? goes into the evidence
+fn report_side_condition(rep: &mut Report, model: &Model, safe_reqs: &[String]) {
+    let mut tot = (0usize, 0usize, 0usize);
+    for (q, r) in safe_reqs.iter().zip(model.batch(safe_reqs).iter()) {
+        match parse_safe_response(r) {
+            Some((a, b, c, names)) => {
+                tot = (tot.0 + a, tot.1 + b, tot.2 + c);
+                if !names.is_empty() && rep.notes.len() < 3 {
+                    rep.notes.push(format!("side condition `Safe` does not hold for {:?} (the pass-level theorems do not apply there; the oracles do)", names));
+                }
+            }
+            None => rep.notes.push(format!("model driver: no answer to a `safe` request ({} bytes): {:?}", q.len(), r.chars().take(60).collect::<String>())),
+        }
+    }
+    rep.countn("theorem_side_condition_holds_sources", tot.0 as u64);
+    rep.countn("theorem_side_condition_fails_sources", tot.1 as u64);
+    rep.countn("theorem_side_condition_not_applicable_sources", tot.2 as u64);
+}
+
 fn fresh_project(rng: &mut Rng, runner: &mut Runner, want_ok: bool) -> Option<(Project, Tree, Tree, RunCfg)> {
     for _ in 0..6 {
         let p0 = gen_project(rng, &hist_opts());
@@ -149,8 +186,10 @@ pub fn run_c06(args: &Args) -> Report {
     let n = total / args.shards.max(1);
     rep.rule = "generated 1-3-file projects (with dependencies between sources), built, then verified: untampered (must pass), and after each single-point tampering of each output incl. outputs of dependencies (flip first/middle/last byte, append, prepend, delete a byte, truncate by one / to a random prefix / to empty, insert a newline, append CRLF, delete the file), with the trailing-newline option flipped, and after a source edit. Oracles: verify ok <=> every output byte-equal to a fresh build of the same tree with the same options; verify never changes (inode, mtime, bytes) of any output; every run also compared with the model. distinct_nontrivial = distinct (tamper kind, position: requested file / dependency, verdict) combinations x project signatures.".to_string();
     let mut runner = Runner::new(args, "c06");
+    let mut safe_reqs: Vec<String> = vec![];
     for i in 0..n {
-        let Some((p, _t0, tref, cfg)) = fresh_project(&mut rng, &mut runner, true) else { continue };
+        let Some((p, t0, tref, cfg)) = fresh_project(&mut rng, &mut runner, true) else { continue };
+        safe_reqs.push(encode_safe_request(&t0, "build", &p.cmds, &runner.base_abs));
         let outputs: Vec<String> = p.sources.iter().map(|s| output_name(s)).filter(|o| tref.files.contains_key(o)).collect();
         let mut vcfg = cfg.clone();
         vcfg.mode = "verify";
@@ -218,6 +257,7 @@ pub fn run_c06(args: &Args) -> Report {
             rep.sample(format!("project with sources {:?}: verify {:?} after tampering one output => {}", p.sources, vcfg.inputs, runner.cases[runner.cases.len() - 2].imp.verdict));
         }
     }
+    report_side_condition(&mut rep, &model, &safe_reqs);
     compare_all(&mut rep, &runner, &model, "C06", "C06.stream_compare_iff, verify_ok_iff_uptodate, verify_open_readonly, verify_untouched");
     runner.cleanup();
     rep
@@ -396,9 +436,11 @@ pub fn run_c08(args: &Args) -> Report {
     rep.rule = "generated projects x pre-states of every generated path (absent, stale text, empty, prefix of the right content cut at a random byte, cut inside a multi-byte character, random bytes incl. invalid UTF-8, right content plus a tail, already right), chosen independently per path, then build or needed-build; building twice; a CLI build killed with SIGKILL after a random delay followed by a rebuild. Oracle: the full tree after the build equals the tree of the reference build from the generated-file-free tree, same verdict; idempotence. Every run also compared with the model.".to_string();
     let mut runner = Runner::new(args, "c08");
     let bin = args.bin.clone().unwrap_or_default();
+    let mut safe_reqs: Vec<String> = vec![];
     for i in 0..n {
         let Some((p, t0, tref, cfg)) = fresh_project(&mut rng, &mut runner, true) else { continue };
         let gen = generated_paths(&t0, &tref);
+        safe_reqs.push(encode_safe_request(&t0, "build", &p.cmds, &runner.base_abs));
         let variants = if args.thorough() { 5 } else { 3 };
         for v in 0..variants {
             let mut t = t0.clone();
@@ -464,6 +506,7 @@ pub fn run_c08(args: &Args) -> Report {
             rep.sample(format!("sources {:?}, generated paths {:?}: build from stale/corrupt leftovers => equal to reference", p.sources, gen));
         }
     }
+    report_side_condition(&mut rep, &model, &safe_reqs);
     compare_all(&mut rep, &runner, &model, "C08", "C08.build_open_forgets, build_open_hermetic, build_done_writes, temp_overwrites, temp_idempotent");
     runner.cleanup();
     rep
@@ -479,8 +522,10 @@ pub fn run_c09(args: &Args) -> Report {
     let n = total / args.shards.max(1);
     rep.rule = "histories over generated projects: reference build; then per generated file one of {up to date, stale (other text / longer: right + tail / shorter: proper prefix / same length different bytes / non-UTF-8), missing}; then a needed-build (also build and verify for the temp rule). Oracles: needed-build verdict and every byte equal a normal build of the same tree in a scratch copy; outputs and temp files whose content was already correct keep (inode, mtime); stale ones are brought up to date. Every run also compared with the model.".to_string();
     let mut runner = Runner::new(args, "c09");
+    let mut safe_reqs: Vec<String> = vec![];
     for i in 0..n {
         let Some((p, t0, tref, cfg)) = fresh_project(&mut rng, &mut runner, true) else { continue };
+        safe_reqs.push(encode_safe_request(&t0, "build", &p.cmds, &runner.base_abs));
         let gen = generated_paths(&t0, &tref);
         for v in 0..(if args.thorough() { 4 } else { 2 }) {
             let mut t = tref.clone();
@@ -573,6 +618,7 @@ pub fn run_c09(args: &Args) -> Report {
             rep.sample(format!("sources {:?}: needed-build over a mix of up-to-date/stale/missing generated files equals a normal build", p.sources));
         }
     }
+    report_side_condition(&mut rep, &model, &safe_reqs);
     compare_all(&mut rep, &runner, &model, "C09", "C09.needed_no_touch, needed_updates_stale, needed_eq_build, temp_no_touch, temp_updates_stale");
     runner.cleanup();
     rep
